@@ -234,7 +234,33 @@ BANKS = [
 ]
 
 
-def gen_computer(r, rate=None, si=False):
+# spectral corners of the STFT port used by the torch tool (and of the NumPy computer used by the kaldi tool):
+# complex banks whose filters wrap past the Nyquist bin / below 0 Hz, with odd, even-not-power-of-two and
+# power-of-two DFT sizes, padded and not.  (8 kHz: 5.125 ms = 41 samples, 25.125 ms = 201, 8 ms = 64, 10 ms = 80.)
+CORNER_COMPUTERS = [
+    dict(bank="gabor", L_ms=5.125, S_ms=2, pad=False), dict(bank="gammatone", L_ms=5.125, S_ms=2, pad=False),
+    dict(bank="gabor", L_ms=25.125, S_ms=10, pad=False), dict(bank="gammatone", L_ms=25.125, S_ms=10, pad=True),
+    dict(bank="gabor", L_ms=10, S_ms=5, pad=False), dict(bank="gammatone", L_ms=8, S_ms=3.125, pad=True),
+    dict(bank="gabor", L_ms=8, S_ms=8, pad=False), dict(bank="gammatone", L_ms=12.5, S_ms=5, pad=False),
+]
+
+
+def corner_computer(r, k):
+    c = CORNER_COMPUTERS[k % len(CORNER_COMPUTERS)]
+    rate = 8000
+    bank = dict(name=c["bank"], num_filts=4, scaling_function=r.choice(["mel", "bark"]), sampling_rate=rate,
+                low_hz=r.choice([0, 20]), high_hz=rate // 2)
+    cfg = {"name": "stft", "bank": bank, "frame_length_ms": c["L_ms"], "frame_shift_ms": c["S_ms"],
+           "use_log": r.random() < 0.7, "use_power": r.random() < 0.5, "pad_to_nearest_power_of_two": c["pad"],
+           "frame_style": r.choice(["causal", "centered"])}
+    if r.random() < 0.3:
+        cfg["include_energy"] = True
+    return cfg
+
+
+def gen_computer(r, rate=None, si=False, corner=None):
+    if corner is not None and not si:
+        return corner_computer(r, corner)
     rate = rate or r.choice([8000, 16000])
     bank = dict(r.choice(BANKS))
     bank.update(sampling_rate=rate, low_hz=r.choice([20, 100]), high_hz=r.choice([rate // 2, rate // 2 - 500]))
@@ -671,7 +697,9 @@ def close(np, act, exp, rtol, atol, strict_shape):
 def kaldi_gen_case(ctx, I, idx):
     r = ctx.rng
     si = r.random() < 0.08
-    comp_cfg = gen_computer(r, si=si)
+    comp_cfg = gen_computer(r, si=si, corner=(idx // 4 if idx % 4 == 3 else None))
+    if idx % 4 == 3 and not si:
+        ctx.count("generator:corner-computer")
     comp, L, S = frame_params(I, comp_cfg)
     rate = comp_cfg["bank"]["sampling_rate"]
     if si:
@@ -875,7 +903,9 @@ def torch_gen_case(ctx, I, idx):
     r = ctx.rng
     no_comp = r.random() < 0.12
     si = (not no_comp) and r.random() < 0.08
-    comp_cfg = None if no_comp else gen_computer(r, si=si)
+    comp_cfg = None if no_comp else gen_computer(r, si=si, corner=(idx // 3 if idx % 3 == 2 else None))
+    if idx % 3 == 2 and not no_comp and not si:
+        ctx.count("generator:corner-computer")
     if no_comp:
         L, S = 50, 20
     else:
